@@ -135,6 +135,10 @@ class Table(ObjV):
         g.table = self
         self.fields['__getitem__'] = g
         self.fields['items'] = FuncV('dict.items', lambda p, a, kw: ListV([TupleV([self.keyval(k), v]) for k, v in self.entries]))
+        self.fields['__iter__'] = FuncV('dict.__iter__', lambda p, a, kw: ListV([self.keyval(k) for k, _ in self.entries]))      # the keys, in insertion order
+        c = FuncV('dict.__contains__', lambda p, a, kw: self.contains(p, a[-1]))
+        c.table = self
+        self.fields['__contains__'] = c
 
     @staticmethod
     def keyval(k):
@@ -166,6 +170,22 @@ class Table(ObjV):
             raise Unsupported('text-keyed table with non-boolean values')
         hits = [x == lit(k, p) for (k, _), v in zip(self.entries, vals) if v]
         return BoolV(Or(*hits) if hits else BoolVal(False))
+
+    def contains(self, p, key):
+        """`key in table`: exactly the condition under which `lookup` does not raise KeyError (no path decision: a formula)"""
+        d = dict(self.entries)
+        cb = concrete_bool(key)
+        if self.entries and isinstance(self.entries[0][0], bool):
+            if cb is not None:
+                return BoolV(cb in d)
+            if isinstance(key, BoolV):
+                return BoolV(Or(And(key.t, BoolVal(True in d)), And(Not(key.t), BoolVal(False in d))))
+            raise Unsupported('membership of %r in a table keyed by booleans' % (key,))
+        if isinstance(key, StrV) and key.value is not None:
+            return BoolV(key.value in d)
+        if isinstance(key, TermV) and key.t.sort() == Text:
+            return BoolV(self.key_valid(p, key.t))
+        raise Unsupported('membership of %r in a table keyed by texts' % (key,))
 
     def lookup(self, p, key):
         d = dict(self.entries)
@@ -270,7 +290,9 @@ def _map(p, args, kw):
         s = _seq_of(p2, o.of)
         if s is None:
             raise Unsupported('iteration over map(_, %r)' % (o.of,))
-        return IterV(lambda t: p2.interp.call(o.fn, [s.at(t)], {}), s.length, o.name)
+        r = IterV(lambda t: p2.interp.call(o.fn, [s.at(t)], {}), s.length, o.name)
+        r.index_shift = getattr(s, 'index_shift', 0)
+        return r
     o.fields['__iter__'] = FuncV('map.__iter__', iter_)
     return o
 
